@@ -61,8 +61,16 @@ func main() {
 	o.verbose = *verbose
 	o.solver = *solver
 	o.seed = seed
+	// per-harness wall-clock budget: a change that defeats the folding of wrap-safe comparisons can
+	// make a scenario's path count explode; the harness is then cut off and reported inconclusive
+	// instead of running for hours (the cheap step lemmas of the same check still report)
+	o.maxWallS = 480
 	if *tier == "thorough" {
 		o.tier = 1
+		o.maxWallS = 3600
+	}
+	if s := os.Getenv("VF_WALL_S"); s != "" {
+		o.maxWallS, _ = strconv.Atoi(s)
 	}
 	if *maxPaths > 0 {
 		o.maxPaths = *maxPaths
